@@ -1,10 +1,16 @@
 """C03 - URL matching agrees with the declarative meaning of the rules (structural clauses).
 
-Five rules.  None of them interprets the per-part regular expressions or the
+Six rules.  None of them interprets the per-part regular expressions or the
 backtracking search as a language recogniser: what is decided is the priority
 order, the 405 bookkeeping of the rule loops, the mapping of NoMatch onto HTTP
-exceptions, that a converter's late rejection does not end the search, and that
-the weight of a rule part is frozen once it was built.
+exceptions, that a converter's late rejection does not end the search, that
+the weight of a rule part is frozen once it was built, and that the retry on the
+path with merged slashes happens only for maps that merge slashes.
+
+Conditions are compared through canonical atoms (wzsa.guards.canon) with local
+flags / aliases replaced by what they stand for, and a Weighting / RulePart
+construction is followed one level into a helper that merely builds the object,
+so that neutral restructurings of the matcher and the rule parser stay silent.
 """
 
 from __future__ import annotations
@@ -13,10 +19,10 @@ import ast
 import itertools
 import typing as t
 
-from .. import astq
+from .. import astq, guards
 from ..cfg import CFG, Node, cfg_of
 from ..dataflow import ReachingDefs
-from ..fold import Folder, Unfoldable
+from ..fold import Folder, RegexConst, Unfoldable, matches_const
 from ..loader import AnalysisError, ClassInfo, FuncInfo, dotted, norm, walk_no_nested
 from ..report import Ctx
 
@@ -35,9 +41,12 @@ LEVEL_TEXT = (
     "only on the remaining path, and the matcher hands NoMatch the one set its loops update; (R3.4) a converter whose "
     "to_python raises ValidationError must not end the whole match: the handler around the to_python call has to resume "
     "the search; (R3.5) a list stored into a Weighting / RulePart is never mutated afterwards (it is rebound to a fresh "
-    "list first), so parts never share or lose their weights. Not decided: that the compiled per-part regular "
+    "list first), so parts never share or lose their weights; (R3.6) in StateMachineMatcher.match the path with repeated "
+    "slashes merged - and hence the retry of the search on it, its slash redirect and its 405 bookkeeping - is used only on "
+    "paths on which the map-level `self.merge_slashes` is true. Not decided: that the compiled per-part regular "
     "expressions plus backtracking accept exactly the language the rule grammar denotes (regex / state-machine "
-    "semantics), and the relative order of parts whose literal decoration differs *and* whose converters differ."
+    "semantics, including under which conditions _parse_rule augments a final part's regex with the optional-slash suffix), "
+    "and the relative order of parts whose literal decoration differs *and* whose converters differ."
 )
 TRUSTED = [
     "CPython ast",
@@ -50,6 +59,9 @@ ASSUMPTIONS = [
     "an explicit `raise ValidationError` in a to_python is reachable for some string the converter's regex accepts (it would be dead code otherwise)",
     "condition atoms of a rule loop are treated as independent booleans; infeasible combinations only add rows in which short-circuit evaluation never looks at the dependent atom",
     "the request-dependent atoms of a rule loop are those mentioning a parameter of StateMachineMatcher.match (method, websocket)",
+    "a local flag / alias is replaced by its defining expression only when that is its single reaching definition, the expression is pure (names, attributes, constants, comparisons, and/or/not) and none of its names is rebound in between",
+    "a helper is taken for a constructor call only if its body is nothing but `return Weighting(...)` / `return RulePart(...)` over its parameters",
+    "`self.merge_slashes` of the matcher is the map-level setting (it is not assigned inside match(); checked)",
 ]
 
 MATCHER = "routing.matcher.StateMachineMatcher"
@@ -150,22 +162,79 @@ def _text(e: ast.AST, mapping: dict[str, str]) -> str:
     return norm(_Rename(mapping).visit(fresh))
 
 
+def _renamed(e: ast.AST, mapping: dict[str, str]) -> ast.AST:
+    # re-parse instead of deepcopy: the loader hangs `_parent` links on every node
+    return _Rename(mapping).visit(ast.parse(ast.unparse(e), mode="eval").body)
+
+
 def canon_atom(e: ast.AST, mapping: dict[str, str]) -> tuple[str, bool]:
-    """(canonical key, polarity): the atom is true iff key is `polarity`.  Operands of == are ordered, `!=`, `not in`,
-    `is not` become the negation of their positive form, so that `a != b` and `b == a` share one key."""
-    cp = astq.cmp_parts(e)
-    if cp is not None:
-        left, op, right = cp
-        lt, rt = _text(left, mapping), _text(right, mapping)
-        if isinstance(op, (ast.Eq, ast.NotEq)):
-            a, b = sorted((lt, rt))
-            return f"{a} == {b}", isinstance(op, ast.Eq)
-        if isinstance(op, (ast.In, ast.NotIn)):
-            return f"{lt} in {rt}", isinstance(op, ast.In)
-        if isinstance(op, (ast.Is, ast.IsNot)):
-            a, b = sorted((lt, rt))
-            return f"{a} is {b}", isinstance(op, ast.Is)
-    return _text(e, mapping), True
+    """(canonical key, polarity): the atom is true iff key is `polarity` (guards.canon after renaming the loop variable):
+    `a != b` and `b == a`, `x is not None` and `not (x is None)`, `a > b` and `b < a` share one key."""
+    return guards.canon(_renamed(e, mapping))
+
+
+_PURE = (ast.Name, ast.Attribute, ast.Constant, ast.Compare, ast.BoolOp, ast.UnaryOp, ast.Subscript, ast.Load, ast.cmpop, ast.boolop, ast.unaryop, ast.expr_context)
+
+
+def _is_pure(e: ast.AST) -> bool:
+    """names, attribute chains, constants and boolean / comparison combinations of them: evaluating the expression a
+    second time, later, gives the same value as long as the names in it are not rebound."""
+    return all(isinstance(x, _PURE) for x in ast.walk(e))
+
+
+class _Locals:
+    """copy / flag propagation inside one function: a local name whose single reaching definition is a plain
+    assignment of a pure expression (`methods = rule.methods`, `method_ok = rule.methods is None or method in
+    rule.methods`) is replaced by that expression, provided no name in it is rebound in between."""
+
+    def __init__(self, cfg: CFG, params: t.Iterable[str]):
+        self.cfg = cfg
+        self.rd = ReachingDefs(cfg, params)
+
+    def value_of(self, name: str, node: Node, depth: int = 0) -> ast.AST | None:
+        defs = self.rd.reaching(node, name)
+        if len(defs) != 1 or depth > 4:
+            return None
+        d = next(iter(defs))
+        if d.kind != "assign" or d.index is not None or d.value is None or d.node is None or d.stmt is None:
+            return None
+        if not _is_pure(d.value):
+            return None
+        for nm in astq.names_in(d.value):
+            if self.rd.reaching(d.node, nm) != self.rd.reaching(node, nm):
+                return None
+        return self.expand(d.value, d.node, depth + 1)
+
+    def expand(self, e: ast.AST, node: Node, depth: int = 0) -> ast.AST:
+        fresh = ast.parse(ast.unparse(e), mode="eval").body
+        outer = self
+
+        class T(ast.NodeTransformer):
+            def visit_Name(self, n: ast.Name) -> ast.AST:  # noqa: N802
+                if isinstance(n.ctx, ast.Load):
+                    v = outer.value_of(n.id, node, depth)
+                    if v is not None:
+                        return v
+                return n
+
+        return ast.fix_missing_locations(T().visit(fresh))
+
+
+def _leaves(e: ast.AST) -> list[ast.AST]:
+    if isinstance(e, ast.BoolOp):
+        return [x for v in e.values for x in _leaves(v)]
+    if isinstance(e, ast.UnaryOp) and isinstance(e.op, ast.Not):
+        return _leaves(e.operand)
+    return [e]
+
+
+def _eval(e: ast.AST, truth: t.Callable[[ast.AST], bool]) -> bool:
+    if isinstance(e, ast.BoolOp):
+        vals = [_eval(v, truth) for v in e.values]
+        return all(vals) if isinstance(e.op, ast.And) else any(vals)
+    if isinstance(e, ast.UnaryOp) and isinstance(e.op, ast.Not):
+        return not _eval(e.operand, truth)
+    return truth(e)
 
 
 # ----------------------------------------------------------------------
@@ -245,9 +314,12 @@ class _Matcher:
 # R3.1
 
 
-def _sub_of_attr(e: ast.AST, attr: str) -> ast.Subscript | None:
+def _sub_of_attr(e: ast.AST, attr: str) -> ast.AST | None:
+    """the key expression of `<x>.<attr>[key]` / `<x>.<attr>.get(key)`."""
     if isinstance(e, ast.Subscript) and isinstance(e.value, ast.Attribute) and e.value.attr == attr:
-        return e
+        return e.slice
+    if isinstance(e, ast.Call) and isinstance(e.func, ast.Attribute) and e.func.attr == "get" and isinstance(e.func.value, ast.Attribute) and e.func.value.attr == attr and e.args:
+        return e.args[0]
     return None
 
 
@@ -281,7 +353,7 @@ def _r31_order(ctx: Ctx, m: _Matcher) -> None:
             continue
         for v in _values_of(fn, c.args[0]):
             s = _sub_of_attr(v, "static")
-            if s is not None and not (isinstance(s.slice, ast.Constant) and s.slice.value == ""):
+            if s is not None and not (isinstance(s, ast.Constant) and s.value == ""):
                 static_calls.append(c)
                 break
     dyn_calls = [c for c in rec_calls if any(_inside(c, l) for l in dyn_loops)]
@@ -520,6 +592,114 @@ def _r31_weights(ctx: Ctx) -> None:
            norm(dc) if dc is not None else "attribute missing", mp.fq, dc, "Map.default_converters source")
 
 
+CTORS = ("Weighting", "RulePart")
+
+
+class _Site(t.NamedTuple):
+    site: ast.Call  # the call as written in the function under analysis
+    eff: ast.Call  # the constructor call it amounts to, over the function's own names
+    callee: str  # Weighting / RulePart
+    via: str | None  # name of the helper the construction was moved into
+
+
+def _ctor_returned(fn: ast.AST) -> ast.Call | None:
+    """fn's body is nothing but `return Ctor(...)` (optionally `v = Ctor(...); return v`, after a docstring)."""
+    body = list(getattr(fn, "body", []))
+    if body and isinstance(body[0], ast.Expr) and isinstance(body[0].value, ast.Constant) and isinstance(body[0].value.value, str):
+        body = body[1:]
+    call: ast.AST | None = None
+    if len(body) == 1 and isinstance(body[0], ast.Return):
+        call = body[0].value
+    elif len(body) == 2 and isinstance(body[1], ast.Return) and isinstance(body[1].value, ast.Name):
+        st = body[0]
+        tg = st.targets[0] if isinstance(st, ast.Assign) and len(st.targets) == 1 else st.target if isinstance(st, ast.AnnAssign) else None
+        if isinstance(tg, ast.Name) and tg.id == body[1].value.id:
+            call = st.value  # type: ignore[union-attr]
+    if isinstance(call, ast.Call) and _last(dotted(call.func)) in CTORS:
+        return call
+    return None
+
+
+def _inline(helper: ast.AST, inner: ast.Call, call: ast.Call, skip_first: bool) -> ast.Call | None:
+    """`inner` (the constructor call inside helper) with helper's parameters replaced by the arguments of `call`."""
+    a = helper.args  # type: ignore[attr-defined]
+    if a.vararg or a.kwarg or any(isinstance(x, ast.Starred) for x in call.args) or any(k.arg is None for k in call.keywords):
+        return None
+    pos = [x.arg for x in [*a.posonlyargs, *a.args]]
+    if skip_first:
+        pos = pos[1:]
+    defaults: dict[str, ast.AST] = {}
+    pa = [*a.posonlyargs, *a.args]
+    for x, d in zip(pa[len(pa) - len(a.defaults):], a.defaults):
+        defaults[x.arg] = d
+    for x, d in zip(a.kwonlyargs, a.kw_defaults):
+        if d is not None:
+            defaults[x.arg] = d
+    if len(call.args) > len(pos):
+        return None
+    bound: dict[str, ast.AST] = dict(zip(pos, call.args))
+    names = set(pos) | {x.arg for x in a.kwonlyargs}
+    for k in call.keywords:
+        if k.arg not in names or k.arg in bound:
+            return None
+        bound[k.arg] = k.value  # type: ignore[index]
+    for nm in names:
+        if nm not in bound:
+            if nm not in defaults:
+                return None
+            bound[nm] = defaults[nm]
+    fresh = ast.parse(ast.unparse(inner), mode="eval").body
+
+    class T(ast.NodeTransformer):
+        def visit_Name(self, n: ast.Name) -> ast.AST:  # noqa: N802
+            if n.id in bound:
+                return ast.parse(ast.unparse(bound[n.id]), mode="eval").body
+            return n
+
+    out = ast.fix_missing_locations(T().visit(fresh))
+    return out if isinstance(out, ast.Call) else None
+
+
+def _ctor_sites(ctx: Ctx, fi: FuncInfo) -> list[_Site]:
+    """every construction of a Weighting / RulePart in fi: written out, or moved into a helper (function of the module,
+    method of the class, closure of fi) that does nothing but build and return the object from its parameters."""
+    repo = ctx.repo
+    li = fi.module.local_imports(fi.node)
+    closures = {n.name: n for n in walk_no_nested(fi.node) if isinstance(n, (ast.FunctionDef, ast.AsyncFunctionDef))}
+    out: list[_Site] = []
+    for c in astq.calls(fi.node, nested=False):
+        d = dotted(c.func)
+        if d is None:
+            continue
+        if _last(d) in CTORS:
+            out.append(_Site(c, c, _last(d), None))
+            continue
+        helper: ast.AST | None = None
+        skip = False
+        if isinstance(c.func, ast.Name):
+            if d in closures:
+                helper = closures[d]
+            else:
+                fq = repo.resolve(fi.module, d, li)
+                h = repo.try_func(fq) if fq and fq.startswith("werkzeug") else None
+                helper = h.node if h is not None else None
+        elif isinstance(c.func, ast.Attribute) and isinstance(c.func.value, ast.Name) and c.func.value.id in ("self", "cls") and fi.cls is not None:
+            _, what = repo.lookup(fi.cls, c.func.attr)
+            if isinstance(what, FuncInfo):
+                helper = what.node
+                skip = "staticmethod" not in what.decorators
+        if helper is None:
+            continue
+        inner = _ctor_returned(helper)
+        if inner is None:
+            continue
+        eff = _inline(helper, inner, c, skip)
+        if eff is None:
+            raise AnalysisError(f"{fi.fq}: cannot map the arguments of `{norm(c)[:60]}` onto the parameters of the helper that builds a {_last(dotted(inner.func))}")
+        out.append(_Site(c, eff, _last(dotted(inner.func)), _last(d)))
+    return out
+
+
 def _weighting_fields(ctx: Ctx) -> list[tuple[str, str]]:
     wc = ctx.repo.cls("routing.rules.Weighting")
     fields = [(st.target.id, norm(st.annotation)) for st in wc.node.body if isinstance(st, ast.AnnAssign) and isinstance(st.target, ast.Name)]
@@ -541,6 +721,21 @@ def _call_fields(call: ast.Call, fields: list[tuple[str, str]]) -> dict[str, ast
     return out
 
 
+def _list_growth(fn: ast.AST) -> list[tuple[ast.AST, str, list[ast.AST]]]:
+    """(site, local list, elements) for `xs.append(e)`, `xs.extend([e, ...])`, `xs += [e, ...]` in fn."""
+    out: list[tuple[ast.AST, str, list[ast.AST]]] = []
+    for x in walk_no_nested(fn):
+        if isinstance(x, ast.Call) and isinstance(x.func, ast.Attribute) and isinstance(x.func.value, ast.Name) and x.args:
+            if x.func.attr == "append":
+                out.append((x, x.func.value.id, [x.args[0]]))
+            elif x.func.attr == "extend" and isinstance(x.args[0], (ast.List, ast.Tuple)):
+                out.append((x, x.func.value.id, list(x.args[0].elts)))
+        elif isinstance(x, ast.AugAssign) and isinstance(x.op, ast.Add) and isinstance(x.target, ast.Name) and isinstance(x.value, (ast.List, ast.Tuple)):
+            out.append((x, x.target.id, list(x.value.elts)))
+    out.sort(key=lambda p: (getattr(p[0], "lineno", 0), getattr(p[0], "col_offset", 0)))
+    return out
+
+
 def _r31_weighting(ctx: Ctx) -> None:
     repo = ctx.repo
     fi = repo.func("routing.rules.Rule._parse_rule")
@@ -556,34 +751,39 @@ def _r31_weighting(ctx: Ctx) -> None:
     conv_lists: set[str] = set()
     lit_lists: set[str] = set()
     nconv = 0
-    for c in astq.method_calls(fi.node, "append", nested=False):
-        recv = c.func.value  # type: ignore[attr-defined]
-        if not isinstance(recv, ast.Name) or not c.args:
-            continue
-        a = c.args[0]
-        if isinstance(a, ast.Attribute) and a.attr == "weight" and isinstance(a.value, ast.Name):
-            node = cfg.node_of(c)
-            defs = rd.reaching(node, a.value.id) if node is not None else frozenset()
-            from_conv = bool(defs) and all(d.kind == "assign" and isinstance(d.value, ast.Call) and isinstance(d.value.func, ast.Attribute) and d.value.func.attr == "get_converter" for d in defs)
-            nconv += 1
-            ctx.ob("R3.1", "a variable contributes the weight of the converter that get_converter returned for it", from_conv,
-                   f"`{norm(c)}`: `{a.value.id}` bound from {[norm(d.value)[:50] if d.value is not None else d.kind for d in defs]}", fi, c, "argument weight is the converter's weight")
-            if from_conv:
-                conv_lists.add(recv.id)
-        else:
-            lit_lists.add(recv.id)
+    al = guards.Aliases(cfg, rd)
+    for c, recv_id, elems in _list_growth(fi.node):
+        node = cfg.node_of(c)
+        for a0 in elems:
+            a = al.expand(a0, node) if node is not None and isinstance(a0, ast.Name) else a0  # `w = conv.weight; xs.append(w)`
+            if isinstance(a, ast.Attribute) and a.attr == "weight" and isinstance(a.value, ast.Name):
+                at = node
+                if a is not a0 and node is not None:
+                    wd = rd.reaching(node, a0.id)  # type: ignore[union-attr]
+                    at = next(iter(wd)).node if len(wd) == 1 else node
+                defs = rd.reaching(at, a.value.id) if at is not None else frozenset()
+                from_conv = bool(defs) and all(d.kind == "assign" and isinstance(d.value, ast.Call) and isinstance(d.value.func, ast.Attribute) and d.value.func.attr == "get_converter" for d in defs)
+                nconv += 1
+                ctx.ob("R3.1", "a variable contributes the weight of the converter that get_converter returned for it", from_conv,
+                       f"`{norm(c)}`: `{a.value.id}` bound from {[norm(d.value)[:50] if d.value is not None else d.kind for d in defs]}", fi, c, "argument weight is the converter's weight")
+                if from_conv:
+                    conv_lists.add(recv_id)
+            else:
+                lit_lists.add(recv_id)
     if nconv == 0:
         ctx.ob("R3.1", "a variable contributes the weight of the converter that get_converter returned for it", False,
                "no `<list>.append(<converter>.weight)` in _parse_rule: the converters' weights never reach the part's Weighting", fi, fi.node, "argument weight is the converter's weight")
-    wcalls = [c for c in astq.calls(fi.node, nested=False) if _last(dotted(c.func)) == "Weighting"]
-    ctx.floor("R3.1", "Weighting constructions in _parse_rule", len(wcalls), 2)
-    for c in wcalls:
-        f = _call_fields(c, fields)
+    wsites = [x for x in _ctor_sites(ctx, fi) if x.callee == "Weighting"]
+    # one construction is enough (the two of today's tree may be folded into one helper / closure); zero = nothing to check
+    ctx.floor("R3.1", "Weighting constructions in _parse_rule", len(wsites), 1)
+    for site in wsites:
+        c = site.site
+        f = _call_fields(site.eff, fields)
         lists = {k: f.get(k) for k in list_fields}
         arg_f = [k for k, v in lists.items() if isinstance(v, ast.Name) and v.id in conv_lists]
         ok_arg = len(arg_f) == 1
         ctx.ob("R3.1", "Weighting carries the list of converter weights", ok_arg,
-               f"`{norm(c)}`: list fields {[(k, norm(v) if v is not None else None) for k, v in lists.items()]}, converter-weight lists {sorted(conv_lists)}", fi, c, "Weighting has the converter weights")
+               f"`{norm(site.eff)}`{' (through ' + site.via + ')' if site.via else ''}: list fields {[(k, norm(v) if v is not None else None) for k, v in lists.items()]}, converter-weight lists {sorted(conv_lists)}", fi, c, "Weighting has the converter weights")
         if not ok_arg:
             continue
         lit_f = [k for k in list_fields if k != arg_f[0]][0]
@@ -598,7 +798,7 @@ def _r31_weighting(ctx: Ctx) -> None:
             and norm(cnt_v.operand.args[0]) == norm(lit_v) and isinstance(lit_v, ast.Name) and lit_v.id in lit_lists and lit_v.id not in conv_lists
         )
         ctx.ob("R3.1", "more literal pieces sort first: the count before the literal list is minus its length", ok_cnt,
-               f"`{norm(c)}`: {cnt_f} = {norm(cnt_v) if cnt_v is not None else None}, {lit_f} = {norm(lit_v) if lit_v is not None else None}", fi, c, "literal count is -len(literal list)")
+               f"`{norm(site.eff)}`: {cnt_f} = {norm(cnt_v) if cnt_v is not None else None}, {lit_f} = {norm(lit_v) if lit_v is not None else None}", fi, c, "literal count is -len(literal list)")
 
 
 # ----------------------------------------------------------------------
@@ -606,7 +806,7 @@ def _r31_weighting(ctx: Ctx) -> None:
 
 
 class _RuleLoop:
-    def __init__(self, m: _Matcher, cfg: CFG, fn: ast.AST, loop: ast.For):
+    def __init__(self, m: _Matcher, cfg: CFG, locs: _Locals, fn: ast.AST, loop: ast.For):
         self.loop = loop
         self.cfg = cfg
         if not isinstance(loop.target, ast.Name):
@@ -623,12 +823,16 @@ class _RuleLoop:
         self.label = f"rule loop over {norm(loop.iter)} under `{under}`"
         self.weight = m.loop_weight.get(id(loop), 1)
         self.m = m
-        # atoms
+        # atoms: the leaves of every test in the body, local flags / aliases replaced by what they stand for
+        self.locals = locs
+        self.expanded: dict[int, ast.AST] = {}
         self.atoms: dict[str, bool] = {}  # key -> request dependent
         for tn in cfg.nodes:
             if tn.kind == "test" and id(tn.ast) in self.body_ids:
-                key, _ = canon_atom(tn.ast, self.map)
-                self.atoms[key] = bool(astq.names_in(tn.ast) & set(m.request_params))
+                ex = self.expanded[tn.id] = locs.expand(tn.ast, tn)
+                for leaf in _leaves(ex):
+                    key, _ = canon_atom(leaf, self.map)
+                    self.atoms[key] = self.atoms.get(key, False) or bool(astq.names_in(leaf) & set(m.request_params))
         self.keys = sorted(self.atoms)
         self.admission = [k for k in self.keys if not self.atoms[k]]
         self.request = [k for k in self.keys if self.atoms[k]]
@@ -639,14 +843,16 @@ class _RuleLoop:
         for bits in itertools.product((False, True), repeat=len(self.keys)):
             self.table[bits] = self._run(dict(zip(self.keys, bits)))
 
-    def _classify(self, st: ast.AST) -> str | None:
+    def _classify(self, n: Node) -> str | None:
         m = self.m
+        st = n.ast
+        txt = lambda e: _text(self.locals.expand(e, n), self.map)  # noqa: E731
         if isinstance(st, ast.Expr) and isinstance(st.value, ast.Call):
             c = st.value
             if isinstance(c.func, ast.Attribute) and astq.is_name(c.func.value, m.H) and c.func.attr in ("update", "add", "__ior__"):
-                return "record" if any(_text(a, self.map).startswith("$r.methods") for a in c.args) else "record-other"
+                return "record" if any(txt(a).startswith("$r.methods") for a in c.args) else "record-other"
         if isinstance(st, ast.AugAssign) and astq.is_name(st.target, m.H):
-            return "record" if _text(st.value, self.map).startswith("$r.methods") else "record-other"
+            return "record" if txt(st.value).startswith("$r.methods") else "record-other"
         if isinstance(st, ast.Assign) and any(astq.is_name(tg, m.W) for tg in st.targets):
             return "wsflag" if isinstance(st.value, ast.Constant) and st.value.value is True else "wsflag-other"
         return None
@@ -664,8 +870,11 @@ class _RuleLoop:
             if n is cfg.exit or n is cfg.raise_exit or n.ast is None or id(n.ast) not in self.body_ids:
                 return frozenset(acts | {"leave"})
             if n.kind == "test":
-                key, pos = canon_atom(n.ast, self.map)
-                truth = val[key] if pos else not val[key]
+                def leaf_truth(leaf: ast.AST) -> bool:
+                    key, pos = canon_atom(leaf, self.map)
+                    return val[key] if pos else not val[key]
+
+                truth = _eval(self.expanded[n.id], leaf_truth)
                 s = cfg.succ(n, "T" if truth else "F")
                 if not s:
                     return frozenset(acts | {"dead"})
@@ -681,7 +890,7 @@ class _RuleLoop:
                 # a *proposal* for this rule (slash redirect), not a match: the path as given is not admitted,
                 # so no 405 bookkeeping is owed for it (whether the proposal itself is method-guarded is C12-R12.5)
                 return frozenset(acts | {"propose"})
-            k = self._classify(a)
+            k = self._classify(n)
             if k:
                 acts.add(k)
             s = cfg.succ(n, None)
@@ -714,13 +923,17 @@ class _RuleLoop:
 def _rule_loops(m: _Matcher) -> list[_RuleLoop]:
     out = []
     cfgs: dict[int, CFG] = {id(m.search): m.search_cfg, id(m.match.node): m.match_cfg}
+    locs: dict[int, _Locals] = {}
     for n in m.rule_loops:
         fn = _enclosing_func(n)
         if fn is None or isinstance(fn, ast.Lambda):
             raise AnalysisError(f"{m.match.fq}: rule loop at line {n.lineno} outside a function")
         if id(fn) not in cfgs:
             cfgs[id(fn)] = CFG(fn)
-        out.append(_RuleLoop(m, cfgs[id(fn)], fn, n))
+        if id(fn) not in locs:
+            a = fn.args  # type: ignore[union-attr]
+            locs[id(fn)] = _Locals(cfgs[id(fn)], [x.arg for x in [*a.posonlyargs, *a.args, *a.kwonlyargs]])
+        out.append(_RuleLoop(m, cfgs[id(fn)], locs[id(fn)], fn, n))
     out.sort(key=lambda l: l.loop.lineno)
     return out
 
@@ -983,6 +1196,175 @@ def _r34(ctx: Ctx, m: _Matcher, scope: t.Callable[[ClassInfo], bool], floor: boo
 
 
 # ----------------------------------------------------------------------
+# R3.6: the merged-slashes retry belongs to maps with merge_slashes on
+
+
+def _merges_slashes(ctx: Ctx, fi: FuncInfo, folder: Folder, c: ast.Call) -> bool:
+    """`re.sub(P, "/", x)`, `re.compile(P).sub("/", x)`, `<P>.sub("/", x)` with a constant pattern that matches a run
+    of slashes, or `x.replace("//", "/")`."""
+    f = c.func
+    li = fi.module.local_imports(fi.node)
+    pat: t.Any = None
+    repl: ast.AST | None = None
+    d = dotted(f)
+    try:
+        if d and ctx.repo.resolve(fi.module, d, li) == "re.sub":
+            if not c.args:
+                return False
+            pat = folder.expr(fi.module, c.args[0])
+            repl = astq.arg_or_kw(c, 1, "repl")
+        elif isinstance(f, ast.Attribute) and f.attr == "sub":
+            pat = folder.expr(fi.module, f.value)
+            repl = astq.arg_or_kw(c, 0, "repl")
+        elif isinstance(f, ast.Attribute) and f.attr == "replace" and len(c.args) >= 2:
+            return astq.const_str(c.args[0]) == "//" and astq.const_str(c.args[1]) == "/"
+        else:
+            return False
+    except Unfoldable:
+        return False
+    if isinstance(pat, str):
+        pat = RegexConst(pat, 0)
+    if not isinstance(pat, RegexConst) or not isinstance(pat.pattern, str) or repl is None or astq.const_str(repl) != "/":
+        return False
+    try:
+        return matches_const(pat, "//") and not matches_const(pat, "/") and not matches_const(pat, "a")
+    except Exception:  # a pattern the re module rejects
+        return False
+
+
+def _evaluated(n: Node) -> list[ast.AST]:
+    a = n.ast
+    if a is None or n.kind in ("join", "handler"):
+        return []
+    if isinstance(a, (ast.For, ast.AsyncFor)):
+        return [a.iter]
+    if isinstance(a, (ast.With, ast.AsyncWith)):
+        return [i.context_expr for i in a.items]
+    if isinstance(a, (ast.FunctionDef, ast.AsyncFunctionDef, ast.ClassDef)):
+        return []
+    return [a]
+
+
+def _r36(ctx: Ctx, m: _Matcher) -> None:
+    fi, cfg = m.match, m.match_cfg
+    folder = Folder(ctx.repo)
+    rd = ReachingDefs(cfg, fi.params)
+    al = guards.Aliases(cfg, rd)
+    flag = "self.merge_slashes"
+    local_funcs = {n.name for n in ast.walk(fi.node) if n is not fi.node and isinstance(n, (ast.FunctionDef, ast.AsyncFunctionDef))}
+
+    # edges taken when the flag is true (the flag itself, `flag is True`, a local alias of it, ...)
+    on_edges: list[tuple[Node, str]] = []
+    for tn in cfg.tests():
+        if tn.kind != "test":
+            continue
+        for e in (tn.ast, al.expand(tn.ast, tn)):
+            pol = truthy_polarity(e, flag)
+            if pol is not None:
+                on_edges.append((tn, "T" if pol else "F"))
+                break
+    rebinds = [st for st in ast.walk(fi.node) if isinstance(st, (ast.Assign, ast.AugAssign, ast.AnnAssign)) and any(norm(tg) == flag for tg in (st.targets if isinstance(st, ast.Assign) else [st.target]))]
+    if rebinds:
+        raise AnalysisError(f"{fi.fq}: `{flag}` is assigned inside match(); its tests no longer speak about the map's setting")
+    off_reach = cfg.reach(cfg.entry, avoid_edges=on_edges)
+
+    def guarded(n: Node) -> bool:
+        """no path on which every test of the flag takes its `off` edge reaches n"""
+        return n.id not in off_reach
+
+    def effectful(e: ast.AST) -> bool:
+        """does evaluating e run the search (a closure of match(), a method of the matcher) or leave match()?"""
+        for k in astq.calls(e):
+            if isinstance(k.func, ast.Name) and k.func.id in local_funcs:
+                return True
+            if isinstance(k.func, ast.Attribute) and isinstance(k.func.value, ast.Name) and k.func.value.id == "self":
+                return True
+        return False
+
+    merges = [c for c in astq.calls(fi.node) if _merges_slashes(ctx, fi, folder, c)]
+    if not merges:
+        raise AnalysisError(f"{fi.fq}: cannot find the statement that merges repeated slashes in the path (re.sub of a constant slash-run pattern with '/')")
+    ctx.floor("R3.6", "slash-merging statements in the matcher", len(merges), 1)
+    tainted: set[t.Any] = set()
+    uses: dict[int, tuple[Node, str]] = {}
+    for c in merges:
+        F = _enclosing_func(c)
+        if F is not fi.node:
+            # inside a closure of match(): the closure's calls in match() are the uses
+            if not isinstance(F, (ast.FunctionDef, ast.AsyncFunctionDef)) or _enclosing_func(F) is not fi.node:
+                raise AnalysisError(f"{fi.fq}: slashes are merged inside a nested construct the rule does not follow")
+            for k in astq.calls(fi.node, nested=False):
+                if isinstance(k.func, ast.Name) and k.func.id == F.name:
+                    kn = cfg.node_of(k)
+                    if kn is None:
+                        raise AnalysisError(f"{fi.fq}: no CFG node for `{norm(k)[:50]}`")
+                    if _pure_binding(kn, k):
+                        tainted.update(rd.gen[kn.id])
+                    else:
+                        uses[kn.id] = (kn, F.name + "(...)")
+            continue
+        n = cfg.node_of(c)
+        if n is None:
+            raise AnalysisError(f"{fi.fq}: no CFG node for `{norm(c)[:50]}`")
+        if _pure_binding(n, None) and not effectful(n.ast.value):  # type: ignore[union-attr]
+            tainted.update(rd.gen[n.id])
+        else:
+            uses[n.id] = (n, "the merged path")
+    # everything the merged path flows into
+    names = lambda: {d.name for d in tainted}  # noqa: E731
+    changed = True
+    while changed:
+        changed = False
+        for n in cfg.nodes:
+            if n.id in uses:
+                continue
+            hit = None
+            for root in _evaluated(n):
+                for x in ast.walk(root):
+                    if isinstance(x, ast.Name) and isinstance(x.ctx, ast.Load) and x.id in names() and rd.reaching(n, x.id) & tainted:
+                        hit = x.id
+            if hit is None:
+                continue
+            if _pure_binding(n, None) and not effectful(n.ast.value):  # type: ignore[union-attr]
+                new = [d for d in rd.gen[n.id] if d not in tainted]
+                if new:
+                    tainted.update(new)
+                    changed = True
+                continue
+            uses[n.id] = (n, f"`{hit}`")
+            changed = True
+    # a closure of match() that reads a tainted name as a free variable is outside what the flow above sees
+    for F in ast.walk(fi.node):
+        if F is fi.node or not isinstance(F, (ast.FunctionDef, ast.AsyncFunctionDef)):
+            continue
+        own = {a.arg for a in [*F.args.posonlyargs, *F.args.args, *F.args.kwonlyargs]} | {nm for nm in names() if astq.assigns_to(F, nm)}
+        free = {x.id for x in ast.walk(F) if isinstance(x, ast.Name) and isinstance(x.ctx, ast.Load) and x.id in names()} - own
+        if free and not any(_merges_slashes(ctx, fi, folder, k) for k in astq.calls(F)):
+            raise AnalysisError(f"{fi.fq}: closure {F.name} reads {sorted(free)}, which may hold the merged path: flow not followed")
+    ctx.floor("R3.6", "statements that use the merged path", len(uses), 1)
+    for n, what in sorted(uses.values(), key=lambda p: p[0].lineno):
+        ok = guarded(n)
+        ctx.ob(
+            "R3.6", "the path with merged slashes is used only when the map-level merge_slashes is on", ok,
+            f"`{norm(n.ast)[:70]}` uses {what}; dominated by `{flag}` being true: {ok}"
+            + ("" if ok else " - with Map(merge_slashes=False) a path with doubled slashes is matched against the merged path: the retry's side exits (slash redirect, 405 bookkeeping) answer for a path no rule admits"),
+            fi, n.ast, f"merged path used under merge_slashes: {norm(n.ast)[:60]}",
+        )
+
+
+def _pure_binding(n: Node, call: ast.Call | None) -> bool:
+    """n is `name = <expr>` (a plain local binding)."""
+    a = n.ast
+    if n.kind != "stmt":
+        return False
+    if isinstance(a, ast.Assign):
+        return all(isinstance(tg, ast.Name) for tg in a.targets) and (call is None or a.value is call)
+    if isinstance(a, ast.AnnAssign):
+        return isinstance(a.target, ast.Name) and a.value is not None and (call is None or a.value is call)
+    return False
+
+
+# ----------------------------------------------------------------------
 # R3.5
 
 
@@ -992,22 +1374,22 @@ def _r35_function(ctx: Ctx, fi: FuncInfo) -> tuple[int, int]:
     cfg = cfg_of(fi)
     rd = ReachingDefs(cfg, fi.params)
     muts = repo.mutators("list")
-    stores: list[tuple[ast.Call, str, Node]] = []
-    for c in astq.calls(fi.node, nested=False):
-        callee = _last(dotted(c.func))
-        if callee not in ("Weighting", "RulePart"):
-            continue
+    stores: list[tuple[ast.Call, str, Node, str]] = []
+    for site in _ctor_sites(ctx, fi):
+        c = site.site
         node = cfg.node_of(c)
         if node is None:
             continue
-        for a in list(c.args) + [k.value for k in c.keywords]:
-            if isinstance(a, ast.Name):
+        seen_here: set[str] = set()
+        for a in list(site.eff.args) + [k.value for k in site.eff.keywords]:
+            if isinstance(a, ast.Name) and a.id not in seen_here:
                 # a local that is (somewhere in the function) bound to a fresh list
                 if rd.reaching(node, a.id) and any(_is_fresh_list(v) for _, v in astq.assigns_to(fi.node, a.id)):
-                    stores.append((c, a.id, node))
+                    seen_here.add(a.id)
+                    stores.append((c, a.id, node, site.callee))
     if not stores:
         return 0, 0
-    names = {nm for _, nm, _ in stores}
+    names = {nm for _, nm, _, _ in stores}
     mut_sites: dict[str, list[tuple[ast.AST, Node]]] = {nm: [] for nm in names}
     kills: dict[str, list[Node]] = {nm: [] for nm in names}
     for n in cfg.nodes:
@@ -1033,8 +1415,7 @@ def _r35_function(ctx: Ctx, fi: FuncInfo) -> tuple[int, int]:
             for tg in tgs:
                 if isinstance(tg, ast.Name) and tg.id in names and _is_fresh_list(a.value):
                     kills[tg.id].append(n)
-    for c, nm, node in stores:
-        callee = _last(dotted(c.func))
+    for c, nm, node, callee in stores:
         r = cfg.reach(node, avoid_nodes=kills[nm])
         hits = [(x, n) for x, n in mut_sites[nm] if n.id in r and n is not node]
         if not hits:
@@ -1057,16 +1438,22 @@ def _r35(ctx: Ctx, funcs: list[FuncInfo], floor: bool = True) -> None:
         ns += a
         nm += b
     if floor:
-        ctx.floor("R3.5", "lists stored into Weighting / RulePart", ns, 4)
-        ctx.floor("R3.5", "mutation sites of those lists", nm, 2)
+        # a part has a list of literal weights and a list of converter weights; how many constructions they are stored
+        # by (two today) depends on how the parser is factored, so the floors only exclude "nothing found"
+        ctx.floor("R3.5", "lists stored into Weighting / RulePart", ns, 2)
+        ctx.floor("R3.5", "mutation sites of those lists", nm, 1)
 
 
 def _weighting_builders(ctx: Ctx, module_filter: t.Callable[[str], bool]) -> list[FuncInfo]:
     out = []
-    for fi in ctx.repo.all_functions():
+    allf = ctx.repo.all_functions()
+    # names of helpers that merely build and return such an object: a function calling one of them is a builder too
+    via = {f.node.name for f in allf if _ctor_returned(f.node) is not None}  # type: ignore[attr-defined]
+    for fi in allf:
         if not module_filter(fi.module.name):
             continue
-        if any(_last(dotted(c.func)) in ("Weighting", "RulePart") for c in astq.calls(fi.node, nested=False)):
+        cs = astq.calls(fi.node, nested=False)
+        if any(_last(dotted(c.func)) in CTORS for c in cs) or (any(_last(dotted(c.func)) in via for c in cs) and _ctor_sites(ctx, fi)):
             out.append(fi)
     return sorted(out, key=lambda f: f.fq)
 
@@ -1080,6 +1467,7 @@ def run(ctx: Ctx) -> None:
     ctx.rule("R3.3", "MapAdapter.match raises MethodNotAllowed iff NoMatch.have_match_for is non-empty, with exactly that set, NotFound only otherwise; the matcher passes NoMatch the one set its loops update")
     ctx.rule("R3.4", "a ValidationError raised by a converter's to_python on a string its regex accepted must resume the search, not end the whole match")
     ctx.rule("R3.5", "a list stored into a Weighting / RulePart is not mutated afterwards: the variable is rebound to a fresh list before the next append / clear")
+    ctx.rule("R3.6", "the path with repeated slashes merged (and the retry of the search on it) is used only under the map-level merge_slashes flag")
     m = _Matcher(ctx)
     # R3.1
     _r31_order(ctx, m)
@@ -1096,6 +1484,8 @@ def run(ctx: Ctx) -> None:
     # R3.5
     funcs = _weighting_builders(ctx, lambda mn: mn.startswith("werkzeug.routing"))
     _r35(ctx, funcs)
+    # R3.6
+    _r36(ctx, m)
 
 
 def run_thorough(ctx: Ctx) -> None:
